@@ -10,8 +10,10 @@ class NetCheck(Check):
     level = "exploration"
     own = "history"
 
+    quick_runs = 8000
+
     def runs(self, tier):
-        return 6000 if tier == "quick" else 150000
+        return self.quick_runs if tier == "quick" else 150000
 
     def prepare(self, ctx):
         self.startup = self.startup_probe(ctx)
